@@ -1437,7 +1437,8 @@ theorem complete_groups (s : State) (b j : Nat) (att inst : Option Nat) (ns : JS
 theorem groups_step (s : State) (op : Op) :
     (step s op).1.groups = s.groups ∨
     (∃ new, (step s op).1.groups = s.groups ++ new ∧ (∀ g ∈ new, g.nJobs = 0 ∧ g.state = .complete) ∧
-      (AncOK s → ∀ g ∈ new, RowAncOK g)) ∨
+      (AncOK s → ∀ g ∈ new, RowAncOK g) ∧
+      ((∃ u bp t, op = .createBatch u bp t) ∨ (∃ b u usr specs, op = .insertGroups b u usr specs))) ∨
     (∃ b g ns, (step s op).1.groups = (s.groups.map (tallyRow b (ancestorsOf s b g) ns)).map (markRow b (ancestorsOf s b g))) ∨
     (∃ b upd u, op = .commitUpdate b upd ∧ findUpdate s b upd = some u ∧ u.committed = false ∧ u.nJobs ≠ 0 ∧
       stagedRoot s b upd = u.nJobs ∧ (step s op).1.groups = s.groups.map (commitGroup s b upd)) := by
@@ -1448,13 +1449,14 @@ theorem groups_step (s : State) (op : Op) :
     split
     · exact Or.inl rfl
     · exact Or.inr (Or.inl ⟨_, rfl, by intro g hg; rw [List.mem_singleton.mp hg]; exact ⟨rfl, rfl⟩,
-        by intro _ g hg; rw [List.mem_singleton.mp hg]; exact ⟨by simp, by simp⟩⟩)
+        by intro _ g hg; rw [List.mem_singleton.mp hg]; exact ⟨by simp, by simp⟩, Or.inl ⟨u, bp, t, rfl⟩⟩)
   | createUpdate b t nj ng u => exact Or.inl (calm_createUpdate s b t nj ng u).groups
   | insertGroups b u usr specs =>
     simp only [step]
     rcases insertGroups_cases s b u usr specs with ⟨e, he⟩ | ⟨_, _, _, _, new, _, _, _, _, _, _, _, e, hn, _, hanc⟩
     · rw [he]; exact Or.inl rfl
-    · rw [e]; exact Or.inr (Or.inl ⟨new, rfl, fun g hg => ⟨(hn g hg).2.2.2.1, (hn g hg).2.2.1⟩, hanc⟩)
+    · rw [e]; exact Or.inr (Or.inl ⟨new, rfl, fun g hg => ⟨(hn g hg).2.2.2.1, (hn g hg).2.2.1⟩, hanc,
+        Or.inr ⟨b, u, usr, specs, rfl⟩⟩)
   | insertJobs b u usr specs =>
     simp only [step]
     rcases insertJobs_cases s b u usr specs with ⟨o, e⟩ | ⟨_, _, _, _, _, _, _, _, e⟩ <;> rw [e] <;> exact Or.inl rfl
@@ -1500,8 +1502,9 @@ def TalliesBounded (s : State) : Prop := ∀ g ∈ s.groups, g.nCompleted ≤ g.
 theorem flagOK_init : FlagOK init := by intro g hg; simp [init] at hg
 
 theorem flagOK_step (s : State) (op : Op) (h : FlagOK s) (hb : TalliesBounded s) (hb' : TalliesBounded (step s op).1)
-    (hg : ∀ b upd g, op = .commitUpdate b upd → 0 ≤ gsum s b upd g) : FlagOK (step s op).1 := by
-  rcases groups_step s op with e | ⟨new, e, hn, -⟩ | ⟨b, g, ns, e⟩ | ⟨b, upd, u, hop, -, -, -, -, e⟩
+    (hg : ∀ b upd g, op = .commitUpdate b upd → updCommitted s b upd = false → 0 ≤ gsum s b upd g) :
+    FlagOK (step s op).1 := by
+  rcases groups_step s op with e | ⟨new, e, hn, -, -⟩ | ⟨b, g, ns, e⟩ | ⟨b, upd, u, hop, hu, hcu, -, -, e⟩
   · intro x hx; rw [e] at hx; exact h x hx
   · intro x hx hpos
     rw [e, List.mem_append] at hx
@@ -1535,7 +1538,7 @@ theorem flagOK_step (s : State) (op : Op) (h : FlagOK s) (hb : TalliesBounded s)
     obtain ⟨x, hx, rfl⟩ := hx'
     have hfx := h x hx
     have hbx0 := hb x hx
-    have hg0 := hg b upd x.id hop
+    have hg0 := hg b upd x.id hop (by unfold updCommitted; rw [hu]; exact hcu)
     unfold commitGroup at hpos ⊢
     split_ifs at hpos ⊢ with h1 h2
     · dsimp only at hpos ⊢
@@ -1762,5 +1765,926 @@ theorem staging_step (s : State) (op : Op) (h1 : ∀ b u usr specs, op ≠ .inse
   | cleanupStaging => exact absurd rfl h2
   | cleanupCancellable => exact (calm_cleanupCancellable s).staging
   | compact => exact absurd rfl h3
+
+theorem groupFrame_markRow (b : Nat) (anc : List Nat) : GroupFrame (markRow b anc) := by
+  intro x; unfold markRow; split_ifs <;> exact ⟨rfl, rfl, rfl, rfl⟩
+
+theorem groupFrame_commitGroup (s : State) (b upd : Nat) : GroupFrame (commitGroup s b upd) := by
+  intro x; unfold commitGroup; split_ifs <;> exact ⟨rfl, rfl, rfl, rfl⟩
+
+theorem ancOK_of_map {s s' : State} {F : Group → Group} (hF : GroupFrame F) (e : s'.groups = s.groups.map F)
+    (h : AncOK s) : AncOK s' := by
+  intro g hg
+  rw [e, List.mem_map] at hg
+  obtain ⟨x, hx, rfl⟩ := hg
+  unfold RowAncOK
+  rw [(hF x).2.2.1, (hF x).2.1]
+  exact h x hx
+
+theorem ancOK_init : AncOK init := by intro g hg; simp [init] at hg
+
+theorem ancOK_step (s : State) (op : Op) (h : AncOK s) : AncOK (step s op).1 := by
+  rcases groups_step s op with e | ⟨new, e, -, hanc, -⟩ | ⟨b, g, ns, e⟩ | ⟨b, upd, u, -, -, -, -, -, e⟩
+  · exact ancOK_of_map GroupFrame.id (by rw [e, List.map_id]) h
+  · intro g hg
+    rw [e, List.mem_append] at hg
+    rcases hg with hg | hg
+    · exact h g hg
+    · exact hanc h g hg
+  · rw [List.map_map] at e
+    exact ancOK_of_map ((groupFrame_tallyRow b _ ns).comp (groupFrame_markRow b _)) e h
+  · exact ancOK_of_map (groupFrame_commitGroup s b upd) e h
+
+theorem stagingInv_other (s : State) (op : Op) (h1 : ∀ b u usr specs, op ≠ .insertJobs b u usr specs)
+    (h2 : op ≠ .cleanupStaging) (h3 : op ≠ .compact) (h : StagingExact s) (hg : JobsGroupOK s) :
+    StagingExact (step s op).1 ∧ JobsGroupOK (step s op).1 := by
+  obtain ⟨F, hF, e⟩ := jobsMapped_step s op h1
+  refine ⟨?_, jobsGroupOK_of_mapped (shape_step s op) hF e hg⟩
+  intro b u g hc
+  have hc0 := updCommitted_mono s op b u hc
+  rw [gsum_eq_stagingLog, staging_step s op h1 h2 h3, ← gsum_eq_stagingLog,
+    stagedCount_of_mapped (shape_step s op) hF e hg]
+  exact h b u g hc0
+
+theorem stagingInv_cleanup (s : State) (h : StagingExact s) : StagingExact (cleanupStaging s).1 := by
+  intro b u g hc
+  have hc0 : updCommitted s b u = false := hc
+  have e1 : stagedCount (cleanupStaging s).1 b u g = stagedCount s b u g := rfl
+  rw [e1, ← h b u g hc0]
+  unfold gsum cleanupStaging
+  dsimp only
+  rw [List.filter_filter]
+  congr 2
+  apply List.filter_congr
+  intro e _
+  cases hk : e.1 <;> simp [isSJobs]
+  rename_i b' u' g' ic
+  intro hb hu _
+  rw [hb, hu, hc0]
+
+theorem stagingInv_compact (s : State) (h : StagingExact s) : StagingExact (compact s).1 := by
+  intro b u g hc
+  have hc0 : updCommitted s b u = false := hc
+  have e1 : stagedCount (compact s).1 b u g = stagedCount s b u g := rfl
+  rw [e1, ← h b u g hc0, gsum_eq_sumP, gsum_eq_sumP, sumP_compact]
+
+/-- staging / cancellable rows `_create_jobs` writes for one job: one group of five cells per ancestor of its group -/
+def jobStagingRows (s : State) (b upd : Nat) (j : Job) : List (CKey × Int) :=
+  (ancestorsOf s b j.group).flatMap fun a =>
+    [(CKey.sJobs b upd a j.ic, 1), (CKey.sReady b upd a j.ic, b2i (j.state = .Ready)),
+     (CKey.sReadyCores b upd a j.ic, b2i (j.state = .Ready) * j.cores),
+     (CKey.cReady b upd a j.ic, b2i (decide (j.state = .Ready) && !j.alwaysRun)),
+     (CKey.cReadyCores b upd a j.ic, b2i (decide (j.state = .Ready) && !j.alwaysRun) * j.cores)]
+
+theorem insertJobsApply_ctr (s : State) (b upd : Nat) (u : Update) (specs : List JobSpec) :
+    (insertJobsApply s b upd u specs).ctr = (specs.map (mkJob u b)).flatMap (jobStagingRows s b upd) ++ s.ctr := rfl
+
+theorem sumP_jobStagingRows (s : State) (ha : AncOK s) (b upd : Nat) (j : Job) (b' u' g : Nat) :
+    sumP (isSJobs b' u' g) (jobStagingRows s b upd j) =
+      if b = b' ∧ upd = u' ∧ (ancestorsOf s b j.group).contains g = true then 1 else 0 := by
+  unfold jobStagingRows
+  rw [sumP_flatMap]
+  have hrow : ∀ a, sumP (isSJobs b' u' g)
+      [(CKey.sJobs b upd a j.ic, 1), (CKey.sReady b upd a j.ic, b2i (j.state = .Ready)),
+       (CKey.sReadyCores b upd a j.ic, b2i (j.state = .Ready) * j.cores),
+       (CKey.cReady b upd a j.ic, b2i (decide (j.state = .Ready) && !j.alwaysRun)),
+       (CKey.cReadyCores b upd a j.ic, b2i (decide (j.state = .Ready) && !j.alwaysRun) * j.cores)] =
+      if b = b' ∧ upd = u' then (if a = g then 1 else 0) else 0 := by
+    intro a
+    by_cases h1 : b = b' ∧ upd = u'
+    · by_cases h2 : a = g <;> simp [sumP, isSJobs, h1, h2]
+    · have : ¬ (b = b' ∧ upd = u' ∧ a = g) := fun h => h1 ⟨h.1, h.2.1⟩
+      simp [sumP, isSJobs, h1, this]
+  simp only [hrow]
+  by_cases h1 : b = b' ∧ upd = u'
+  · obtain ⟨rfl, rfl⟩ := h1
+    simp only [and_self, if_true, true_and]
+    exact sum_indicator_nat _ (ancestorsOf_nodup ha b j.group) g
+  · have : ¬ (b = b' ∧ upd = u' ∧ (ancestorsOf s b j.group).contains g = true) := fun h => h1 ⟨h.1, h.2.1⟩
+    simp only [h1, this, if_false]
+    induction (ancestorsOf s b j.group) <;> simp_all
+
+
+theorem stagingInv_insertJobs (s : State) (b upd user : Nat) (specs : List JobSpec) (h : StagingExact s)
+    (hg : JobsGroupOK s) (ha : AncOK s) :
+    StagingExact (insertJobs s b upd user specs).1 ∧ JobsGroupOK (insertJobs s b upd user specs).1 := by
+  rcases insertJobs_cases s b upd user specs with ⟨o, e⟩ | ⟨first, rest, u, bt, hs, hu, hbt, hrej, e⟩
+  · rw [e]; exact ⟨h, hg⟩
+  · rw [e]
+    obtain ⟨hall, -, -⟩ := insertJobsReject_none hrej
+    have huid : u.id = upd := (mem_of_findUpdate hu).2.2
+    refine ⟨?_, ?_⟩
+    · intro b' u' g hc
+      have hc0 : updCommitted s b' u' = false := hc
+      have e1 : gsum (insertJobsApply s b upd u specs) b' u' g =
+          ((specs.map (mkJob u b)).map fun j => sumP (isSJobs b' u' g) (jobStagingRows s b upd j)).sum + gsum s b' u' g := by
+        rw [gsum_eq_sumP, insertJobsApply_ctr, sumP_append, sumP_flatMap]; rfl
+      have e2 : stagedCount (insertJobsApply s b upd u specs) b' u' g =
+          (((specs.map (mkJob u b)).filter fun j => under s b' g j && decide (j.update = u')).length : Int) +
+            stagedCount s b' u' g := by
+        have : stagedCount (insertJobsApply s b upd u specs) b' u' g =
+            (((s.jobs ++ specs.map (mkJob u b)).filter fun j => under s b' g j && decide (j.update = u')).length : Int) := rfl
+        rw [this, List.filter_append, List.length_append]
+        unfold stagedCount
+        omega
+      rw [e1, e2, h b' u' g hc0, length_filter_eq_sum]
+      congr 2
+      apply List.map_congr_left
+      intro j hj
+      rw [List.mem_map] at hj
+      obtain ⟨sp, -, rfl⟩ := hj
+      rw [sumP_jobStagingRows s ha]
+      have hjb : (mkJob u b sp).batch = b := rfl
+      have hju : (mkJob u b sp).update = upd := huid
+      simp only [under, hjb, hju]
+      by_cases h1 : b = b'
+      · subst h1
+        by_cases h2 : upd = u' <;> simp [h2]
+      · simp [h1]
+    · intro j hj
+      simp only [insertJobsApply, List.mem_append] at hj
+      rcases hj with hj | hj
+      · exact hg j hj
+      · have hjb : j.batch = b := by
+          rw [List.mem_map] at hj; obtain ⟨sp, _, rfl⟩ := hj; rfl
+        rw [hjb]; exact (hall j hj).2.1
+
+
+/-- the staging invariant with the two structural invariants it needs -/
+def StagingInv (s : State) : Prop := StagingExact s ∧ JobsGroupOK s ∧ AncOK s
+
+theorem stagingInv_init : StagingInv init := by
+  refine ⟨?_, ?_, ancOK_init⟩
+  · intro b u g _; rfl
+  · intro j hj; simp [init] at hj
+
+theorem stagingInv_step (s : State) (op : Op) (h : StagingInv s) : StagingInv (step s op).1 := by
+  obtain ⟨h1, h2, h3⟩ := h
+  refine ⟨?_, ?_, ancOK_step s op h3⟩
+  · by_cases c1 : ∃ b u usr specs, op = .insertJobs b u usr specs
+    · obtain ⟨b, u, usr, specs, rfl⟩ := c1
+      exact (stagingInv_insertJobs s b u usr specs h1 h2 h3).1
+    · by_cases c2 : op = .cleanupStaging
+      · subst c2; exact stagingInv_cleanup s h1
+      · by_cases c3 : op = .compact
+        · subst c3; exact stagingInv_compact s h1
+        · exact (stagingInv_other s op (fun b u usr specs e => c1 ⟨b, u, usr, specs, e⟩) c2 c3 h1 h2).1
+  · by_cases c1 : ∃ b u usr specs, op = .insertJobs b u usr specs
+    · obtain ⟨b, u, usr, specs, rfl⟩ := c1
+      exact (stagingInv_insertJobs s b u usr specs h1 h2 h3).2
+    · obtain ⟨F, hF, e⟩ := jobsMapped_step s op (fun b u usr specs e => c1 ⟨b, u, usr, specs, e⟩)
+      exact jobsGroupOK_of_mapped (shape_step s op) hF e h2
+
+theorem stagedCount_nonneg (s : State) (b u g : Nat) : 0 ≤ stagedCount s b u g := by
+  unfold stagedCount; omega
+
+/-! ### `n_jobs` -/
+
+/-- number of job rows of COMMITTED updates of batch `b` under group `g` -/
+def committedCount (s : State) (b g : Nat) : Int :=
+  ((s.jobs.filter fun j => under s b g j && updCommitted s b j.update).length : Int)
+
+/-- `job_groups.n_jobs` is the number of committed jobs under the group -/
+def NJobsExact (s : State) : Prop := ∀ g ∈ s.groups, g.nJobs = committedCount s g.batch g.id
+
+theorem updCommitted_markCommitted {s s' : State} {b upd : Nat} {u : Update} (hu : findUpdate s b upd = some u)
+    (e : s'.updates = s.updates.map (markCommitted b upd)) (b' u' : Nat) :
+    updCommitted s' b' u' = (updCommitted s b' u' || (decide (b' = b) && decide (u' = upd))) := by
+  by_cases hk : b' = b ∧ u' = upd
+  · obtain ⟨rfl, rfl⟩ := hk
+    unfold updCommitted
+    rw [findUpdate_markCommitted hu e]
+    simp
+  · have : (decide (b' = b) && decide (u' = upd)) = false := by simpa using hk
+    rw [this, Bool.or_false]
+    unfold updCommitted findUpdate
+    rw [e]
+    cases hf : s.updates.find? (fun x => x.batch = b' ∧ x.id = u') with
+    | none =>
+      have : (s.updates.map (markCommitted b upd)).find? (fun x => x.batch = b' ∧ x.id = u') = none := by
+        rw [List.find?_eq_none] at hf ⊢
+        intro y hy
+        rw [List.mem_map] at hy
+        obtain ⟨x, hx, rfl⟩ := hy
+        have := hf x hx
+        simpa [(markCommitted_key b upd x).1, (markCommitted_key b upd x).2] using this
+      rw [this]
+    | some x =>
+      have := find?_map_append_some (fun x => decide (x.batch = b' ∧ x.id = u')) (markCommitted b upd)
+        (by intro y; simp [(markCommitted_key b upd y).1, (markCommitted_key b upd y).2]) s.updates [] x hf
+      rw [List.append_nil] at this
+      rw [this]
+      have hkx := List.find?_some hf
+      simp only [decide_eq_true_eq] at hkx
+      have : ¬ (x.batch = b ∧ x.id = upd) := by rw [hkx.1, hkx.2]; exact hk
+      simp [markCommitted, this]
+
+/-- committing `(b, upd)` moves exactly the staged jobs of that update into the committed count -/
+theorem committedCount_commit {s s' : State} {b upd : Nat} {u : Update} (hu : findUpdate s b upd = some u)
+    (hc : u.committed = false) (hsh : Shape s s') {F : Job → Job} (hF : JobFrame F) (ej : s'.jobs = s.jobs.map F)
+    (eu : s'.updates = s.updates.map (markCommitted b upd)) (hg : JobsGroupOK s) (b' g : Nat) :
+    committedCount s' b' g = committedCount s b' g + if b' = b then stagedCount s b upd g else 0 := by
+  have hnc : updCommitted s b upd = false := by unfold updCommitted; rw [hu]; exact hc
+  unfold committedCount stagedCount
+  rw [ej, List.filter_map, List.length_map, length_filter_eq_sum, length_filter_eq_sum]
+  by_cases hb : b' = b
+  · subst hb
+    rw [if_pos rfl, length_filter_eq_sum, ← sum_map_add]
+    congr 1
+    apply List.map_congr_left
+    intro j hj
+    obtain ⟨a1, -, a3, a4, -⟩ := hF j
+    have hu' : under s' b' g (F j) = under s b' g j := by
+      simp only [under, a1, a4]
+      by_cases hjb : j.batch = b'
+      · have := hg j hj; rw [hjb] at this; rw [ancestorsOf_shape' hsh this]
+      · simp [hjb]
+    simp only [Function.comp, hu', a3, updCommitted_markCommitted hu eu]
+    by_cases h1 : j.update = upd
+    · subst h1; simp [hnc]
+    · simp [h1]
+  · rw [if_neg hb, Int.add_zero]
+    congr 1
+    apply List.map_congr_left
+    intro j hj
+    obtain ⟨a1, -, a3, a4, -⟩ := hF j
+    have hu' : under s' b' g (F j) = under s b' g j := by
+      simp only [under, a1, a4]
+      by_cases hjb : j.batch = b'
+      · have := hg j hj; rw [hjb] at this; rw [ancestorsOf_shape' hsh this]
+      · simp [hjb]
+    simp only [Function.comp, hu', a3, updCommitted_markCommitted hu eu]
+    simp [hb]
+
+
+/-- `commit_batch_update` keeps `n_jobs` exact (given the staging invariant).  The hypothesis `hz` covers the procedure's
+early exit `IF expected_n_jobs > 0`: an update declared with zero jobs must have no job rows. -/
+theorem njobsExact_commit (s : State) (b upd : Nat) (h : NJobsExact s) (hst : StagingExact s) (hg : JobsGroupOK s)
+    (hz : ∀ u, findUpdate s b upd = some u → u.nJobs = 0 → ∀ g, stagedCount s b upd g = 0) :
+    NJobsExact (commitUpdate s b upd).1 := by
+  rcases commitUpdate_cases s b upd with ⟨o, e, _⟩ | ⟨u, hu, hc, ho, eu⟩
+  · rw [e]; exact h
+  · have hnc : updCommitted s b upd = false := by unfold updCommitted; rw [hu]; exact hc
+    obtain ⟨F, hF, ej⟩ := (quiet_commitUpdate s b upd).jobs
+    have hcc := fun b' g => committedCount_commit hu hc (shape_commitUpdate s b upd) hF ej eu hg b' g
+    obtain ⟨h1, h2⟩ := commitUpdate_effect s b upd u hu hc
+    have hst' : stagedRoot s b upd = u.nJobs := by
+      by_cases hq : stagedRoot s b upd = u.nJobs
+      · exact hq
+      · rw [h1 hq] at ho; cases ho
+    obtain ⟨-, -, h0, hn⟩ := h2 hst'
+    by_cases hzz : u.nJobs = 0
+    · intro g hgm
+      rw [(h0 hzz).1] at hgm
+      rw [hcc, h g hgm]
+      split_ifs
+      · rw [hz u hu hzz]; omega
+      · omega
+    · intro x' hx'
+      rw [(hn hzz).1, List.mem_map] at hx'
+      obtain ⟨x, hx, rfl⟩ := hx'
+      obtain ⟨f1, f2, -, -⟩ := groupFrame_commitGroup s b upd x
+      rw [f1, f2, hcc, ← h x hx]
+      unfold commitGroup
+      by_cases hk : x.batch = b ∧ hasRow s b upd x.id = true
+      · rw [if_pos hk, if_pos hk.1]
+        show x.nJobs + gsum s b upd x.id = _
+        rw [hst b upd x.id hnc]
+      · rw [if_neg hk]
+        by_cases hb : x.batch = b
+        · rw [if_pos hb]
+          have hr : hasRow s b upd x.id = false := by
+            cases hh : hasRow s b upd x.id
+            · rfl
+            · exact absurd ⟨hb, hh⟩ hk
+          have : gsum s b upd x.id = 0 := by
+            by_cases hq : gsum s b upd x.id = 0
+            · exact hq
+            · rw [hasRow_of_gsum_ne hq] at hr; cases hr
+          rw [← hst b upd x.id hnc, this]; omega
+        · rw [if_neg hb]; omega
+
+
+/-- number of TERMINAL job rows of committed updates of batch `b` under group `g` -/
+def terminalCount (s : State) (b g : Nat) : Int :=
+  ((s.jobs.filter fun j => (under s b g j && updCommitted s b j.update) && j.state.terminal).length : Int)
+
+theorem length_filter_and_le {α : Type} (l : List α) (p t : α → Bool) :
+    (l.filter fun x => p x && t x).length ≤ (l.filter p).length := by
+  induction l with
+  | nil => simp
+  | cons x l ih =>
+    by_cases hp : p x <;> by_cases ht : t x <;> simp [List.filter_cons, hp, ht] <;> omega
+
+theorem length_filter_and_eq_iff {α : Type} (l : List α) (p t : α → Bool) :
+    (l.filter fun x => p x && t x).length = (l.filter p).length ↔ ∀ x ∈ l, p x = true → t x = true := by
+  induction l with
+  | nil => simp
+  | cons x l ih =>
+    have hle := length_filter_and_le l p t
+    by_cases hp : p x <;> by_cases ht : t x <;> simp [List.filter_cons, hp, ht, ← ih] <;> omega
+
+theorem terminalCount_le (s : State) (b g : Nat) : terminalCount s b g ≤ committedCount s b g := by
+  unfold terminalCount committedCount
+  have := length_filter_and_le s.jobs (fun j => under s b g j && updCommitted s b j.update) (fun j => j.state.terminal)
+  omega
+
+theorem terminalCount_eq_iff (s : State) (b g : Nat) :
+    terminalCount s b g = committedCount s b g ↔
+      ∀ j ∈ s.jobs, (under s b g j && updCommitted s b j.update) = true → j.state.terminal = true := by
+  unfold terminalCount committedCount
+  rw [← length_filter_and_eq_iff]
+  omega
+
+/-- an accepted job bunch belongs to an uncommitted update: no committed count changes -/
+theorem njobsExact_insertJobs (s : State) (b upd user : Nat) (specs : List JobSpec) (h : NJobsExact s) :
+    NJobsExact (insertJobs s b upd user specs).1 := by
+  rcases insertJobs_cases s b upd user specs with ⟨o, e⟩ | ⟨first, rest, u, bt, hs, hu, hbt, hrej, e⟩
+  · rw [e]; exact h
+  · rw [e]
+    obtain ⟨-, -, hc, -⟩ := insertJobsReject_none hrej
+    have huid : u.id = upd := (mem_of_findUpdate hu).2.2
+    have hnc : updCommitted s b upd = false := by unfold updCommitted; rw [hu]; exact hc
+    intro g hg
+    have hg' : g ∈ s.groups := hg
+    rw [h g hg']
+    have : committedCount (insertJobsApply s b upd u specs) g.batch g.id =
+        (((s.jobs ++ specs.map (mkJob u b)).filter fun j => under s g.batch g.id j && updCommitted s g.batch j.update).length : Int) := rfl
+    rw [this, List.filter_append, List.length_append]
+    have hnil : ((specs.map (mkJob u b)).filter fun j => under s g.batch g.id j && updCommitted s g.batch j.update) = [] := by
+      rw [List.filter_eq_nil_iff]
+      intro j hj
+      rw [List.mem_map] at hj
+      obtain ⟨sp, -, rfl⟩ := hj
+      have hjb : (mkJob u b sp).batch = b := rfl
+      have hju : (mkJob u b sp).update = upd := huid
+      simp only [under, hjb, hju]
+      by_cases hb : b = g.batch
+      · rw [← hb, hnc]; simp
+      · simp [hb]
+    rw [hnil]
+    unfold committedCount
+    simp
+
+/-! ### which transactions touch `batch_updates`, `batches.id`, `nextBatch` -/
+
+/-- the columns of the state that only `createBatch` / `createUpdate` / `commitUpdate` change -/
+structure Still (s s' : State) : Prop where
+  updates : s'.updates = s.updates
+  batchIds : s'.batches.map (·.id) = s.batches.map (·.id)
+  next : s'.nextBatch = s.nextBatch
+
+theorem Still.refl (s : State) : Still s s := ⟨rfl, rfl, rfl⟩
+theorem Still.trans {a b c : State} (h1 : Still a b) (h2 : Still b c) : Still a c :=
+  ⟨h2.updates.trans h1.updates, h2.batchIds.trans h1.batchIds, h2.next.trans h1.next⟩
+theorem Still.of_eq {s s' : State} (hu : s'.updates = s.updates) (hb : s'.batches = s.batches)
+    (hn : s'.nextBatch = s.nextBatch) : Still s s' := ⟨hu, by rw [hb], hn⟩
+
+theorem still_updateJobs (s : State) (p : Job → Bool) (f : Job → Job) : Still s (updateJobs s p f) := Still.of_eq rfl rfl rfl
+theorem still_updateAttempts (s : State) (d : Nat) (p : Attempt → Bool)
+    (f : Generated.AttemptsTrigger.Row → Generated.AttemptsTrigger.Row) : Still s (updateAttempts s d p f) :=
+  Still.of_eq rfl rfl rfl
+theorem still_addAttempt (s : State) (b j : Nat) (a i : Option Nat) (c : Int) : Still s (addAttempt s b j a i c).1 := by
+  unfold addAttempt; repeat' split
+  all_goals exact Still.of_eq rfl rfl rfl
+theorem still_freeAdd (s : State) (i : Option Nat) (d : Int) : Still s (freeAdd s i d) := Still.of_eq rfl rfl rfl
+
+theorem still_mapBatches (s : State) (F : Batch → Batch) (hF : ∀ x, (F x).id = x.id) :
+    Still s { s with batches := s.batches.map F } :=
+  ⟨rfl, by simp only [List.map_map]; apply List.map_congr_left; intro x _; exact hF x, rfl⟩
+
+theorem still_completePrep (s : State) (b j : Nat) (att inst : Option Nat) (st e : Option Int) (r : String) (d : Nat)
+    (job : Job) : Still s (completePrep s b j att inst st e r d job) := by
+  unfold completePrep
+  dsimp only
+  have h1 := still_addAttempt s b j att inst job.cores
+  cases att with
+  | none => dsimp only; split_ifs
+            · exact h1.trans (still_freeAdd _ _ _)
+            · exact h1
+  | some a => dsimp only; split_ifs
+              · exact (h1.trans (still_updateAttempts _ d _ _)).trans (still_freeAdd _ _ _)
+              · exact h1.trans (still_updateAttempts _ d _ _)
+
+theorem map_id_ite (l : List Batch) (c : Batch → Prop) [DecidablePred c] (f : Batch → Batch) (hf : ∀ x, (f x).id = x.id) :
+    (l.map fun x => if c x then f x else x).map (·.id) = l.map (·.id) := by
+  simp only [List.map_map]; apply List.map_congr_left; intro x _
+  simp only [Function.comp]; split_ifs
+  · exact hf x
+  · rfl
+
+theorem still_completeJob (s : State) (b j : Nat) (att : Option Nat) (ns : JState) (job : Job) :
+    Still s (completeJob s b j att ns job) := by
+  refine ⟨rfl, ?_, rfl⟩
+  exact map_id_ite s.batches _ (fun x => { x with state := .complete }) (fun _ => rfl)
+
+theorem still_startPrep (s : State) (b j a i : Nat) (ts : Int) (d : Nat) (job : Job) : Still s (startPrep s b j a i ts d job) :=
+  (still_addAttempt s b j _ _ _).trans (still_updateAttempts _ d _ _)
+
+theorem still_unschedulePrep (s : State) (b j a i : Nat) (e : Int) (r : String) (d : Nat) (job : Job) :
+    Still s (unschedulePrep s b j a i e r d job) := by
+  unfold unschedulePrep
+  dsimp only
+  split_ifs
+  · exact (still_updateAttempts s d _ _).trans (still_freeAdd _ _ _)
+  · exact still_updateAttempts s d _ _
+
+theorem still_startLike (s : State) (b j a i : Nat) (ts : Int) (d : Nat) (need : IState) (ns : JState) :
+    Still s (startLike s b j a i ts d need ns).1 := by
+  unfold startLike
+  split
+  · exact Still.refl s
+  · split_ifs
+    all_goals first
+      | exact Still.refl s
+      | exact (still_startPrep s b j a i ts d _).trans (still_updateJobs _ _ _)
+      | exact still_startPrep s b j a i ts d _
+
+theorem still_deactivateApply (s : State) (n : Nat) (r : String) (ts : Int) (d : Nat) :
+    Still s (deactivateApply s n r ts d) :=
+  Still.of_eq rfl rfl rfl
+
+theorem still_deleteBatch (s : State) (b : Nat) : Still s (deleteBatch s b).1 := by
+  unfold deleteBatch
+  split
+  · exact Still.refl s
+  · split_ifs
+    all_goals first
+      | exact Still.refl s
+      | exact ⟨rfl, map_id_ite s.batches _ (fun x => { x with deleted := true }) (fun _ => rfl), rfl⟩
+
+theorem still_step (s : State) (op : Op) (h1 : ∀ u bp t, op ≠ .createBatch u bp t)
+    (h2 : ∀ b t nj ng u, op ≠ .createUpdate b t nj ng u) (h3 : ∀ b u, op ≠ .commitUpdate b u) :
+    Still s (step s op).1 := by
+  cases op with
+  | createBatch u bp t => exact absurd rfl (h1 u bp t)
+  | createUpdate b t nj ng u => exact absurd rfl (h2 b t nj ng u)
+  | insertGroups b u usr specs =>
+    simp only [step]
+    rcases insertGroups_cases s b u usr specs with ⟨e, he⟩ | ⟨_, _, _, _, new, _, _, _, _, _, _, _, e, _⟩
+    · rw [he]; exact Still.refl s
+    · rw [e]; exact Still.of_eq rfl rfl rfl
+  | insertJobs b u usr specs =>
+    simp only [step]
+    rcases insertJobs_cases s b u usr specs with ⟨o, e⟩ | ⟨_, _, _, _, _, _, _, _, e⟩ <;> rw [e] <;>
+      exact Still.of_eq rfl rfl rfl
+  | commitUpdate b u => exact absurd rfl (h3 b u)
+  | cancelGroup b g => simp only [step]; unfold cancelGroup; split_ifs <;> exact Still.of_eq rfl rfl rfl
+  | deleteBatch b => exact still_deleteBatch s b
+  | newInstance n c p => simp only [step]; unfold newInstance; split_ifs <;> exact Still.of_eq rfl rfl rfl
+  | activate n => simp only [step]; unfold activate; model_split <;> exact Still.of_eq rfl rfl rfl
+  | deactivate n r ts d =>
+    simp only [step]; unfold deactivate; split
+    · exact Still.refl s
+    · split_ifs
+      · exact Still.refl s
+      · exact still_deactivateApply s n r ts d
+  | markDeleted n => simp only [step]; unfold markDeleted; model_split <;> exact Still.of_eq rfl rfl rfl
+  | schedule b j a i =>
+    simp only [step]; unfold schedule; split
+    · exact Still.refl s
+    · split_ifs
+      all_goals first
+        | exact Still.refl s
+        | exact (still_addAttempt s b j _ _ _).trans (still_updateJobs _ _ _)
+        | exact still_addAttempt s b j _ _ _
+  | creating b j a i ts d => exact still_startLike s b j a i ts d _ _
+  | started b j a i ts d => exact still_startLike s b j a i ts d _ _
+  | complete b j a i ns st e r d =>
+    simp only [step]; unfold complete; split
+    · exact Still.refl s
+    · rename_i job _
+      split_ifs
+      all_goals first
+        | exact Still.refl s
+        | exact still_completePrep s b j a i st e r d job
+        | exact ((still_completePrep s b j a i st e r d job).trans (still_completeJob _ b j a ns job)).trans
+            (still_updateJobs _ _ _)
+  | unschedule b j a i e r d =>
+    simp only [step]; unfold unschedule; split
+    · exact Still.refl s
+    · split_ifs
+      all_goals first
+        | exact Still.refl s
+        | exact (still_unschedulePrep s b j a i e r d _).trans (still_updateJobs _ _ _)
+        | exact still_unschedulePrep s b j a i e r d _
+  | addResources b j a res d => simp only [step]; unfold addResources; split_ifs <;> exact Still.of_eq rfl rfl rfl
+  | heartbeat atts ts d => exact Still.of_eq rfl rfl rfl
+  | cleanupStaging => exact Still.of_eq rfl rfl rfl
+  | cleanupCancellable => exact Still.of_eq rfl rfl rfl
+  | compact => exact Still.of_eq rfl rfl rfl
+
+
+/-! ### fresh group rows have no job under them -/
+
+/-- ancestor lists only name existing groups of the same batch -/
+def AncClosed (s : State) : Prop := ∀ g ∈ s.groups, ∀ a ∈ g.ancestors, ∃ x ∈ s.groups, x.batch = g.batch ∧ x.id = a
+
+/-- batch ids are below `nextBatch`, and every group row belongs to an existing batch -/
+def BatchFresh (s : State) : Prop :=
+  (∀ i ∈ s.batches.map (·.id), i < s.nextBatch) ∧ (∀ g ∈ s.groups, g.batch ∈ s.batches.map (·.id))
+
+/-- the rows `new` appended to `job_groups` have fresh keys, and their ancestors exist -/
+def NewRowsOK (s : State) (new : List Group) : Prop :=
+  (∀ n ∈ new, ∀ x ∈ s.groups, ¬ (x.batch = n.batch ∧ x.id = n.id)) ∧
+  (AncClosed s → ∀ n ∈ new, ∀ a ∈ n.ancestors, ∃ x ∈ s.groups ++ new, x.batch = n.batch ∧ x.id = a)
+
+theorem mem_ancestorsOf {s : State} {b g a : Nat} (h : a ∈ ancestorsOf s b g) :
+    ∃ x ∈ s.groups, x.batch = b ∧ x.id = g ∧ a ∈ x.ancestors := by
+  unfold ancestorsOf at h
+  cases hf : findGroup s b g with
+  | none => rw [hf] at h; simp at h
+  | some x =>
+    rw [hf] at h
+    unfold findGroup at hf
+    have hk := List.find?_some hf
+    simp only [decide_eq_true_eq] at hk
+    exact ⟨x, List.mem_of_find?_eq_some hf, hk.1, hk.2, h⟩
+
+theorem not_mem_of_findGroup_none {s : State} {b g : Nat} (h : findGroup s b g = none) :
+    ∀ x ∈ s.groups, ¬ (x.batch = b ∧ x.id = g) := by
+  unfold findGroup at h
+  rw [List.find?_eq_none] at h
+  intro x hx hk
+  exact h x hx (by simpa using hk)
+
+theorem foldGroups_newRowsOK (b upd : Nat) (u : Update) (specs : List GroupSpec) :
+    ∀ (s s' : State), specs.foldl (groupSpecStep b upd u) (some s) = some s' →
+      ∀ new, s'.groups = s.groups ++ new → NewRowsOK s new := by
+  induction specs with
+  | nil =>
+    intro s s' h new e
+    simp at h; subst h
+    have : new = [] := by simpa using e
+    subst this
+    exact ⟨by simp, by simp⟩
+  | cons sp rest ih =>
+    intro s s' h new e
+    simp only [List.foldl_cons] at h
+    cases hmid : groupSpecStep b upd u (some s) sp with
+    | none => rw [hmid, foldGroups_none] at h; exact absurd h (by simp)
+    | some mid =>
+      rw [hmid] at h
+      obtain ⟨par, hpar⟩ : ∃ par, insertGroup s b upd (u.startGroup + sp.relId - 1) par = some mid :=
+        ⟨_, by simpa [groupSpecStep] using hmid⟩
+      obtain ⟨e1, -, hfresh, -⟩ := insertGroup_eq hpar
+      obtain ⟨new', e2, -, -, -⟩ := foldGroups_eq b upd u rest mid s' h
+      have hmidg : mid.groups = s.groups ++ [Group.mk b (u.startGroup + sp.relId - 1)
+          ((u.startGroup + sp.relId - 1) :: ancestorsOf s b par) (some upd) .complete 0 0 0 0 0] := by rw [e1]
+      have hs'g : s'.groups = mid.groups ++ new' := by rw [e2]
+      have hnew : new = Group.mk b (u.startGroup + sp.relId - 1)
+          ((u.startGroup + sp.relId - 1) :: ancestorsOf s b par) (some upd) .complete 0 0 0 0 0 :: new' := by
+        rw [hs'g, hmidg, List.append_assoc] at e
+        exact (List.append_cancel_left e).symm
+      obtain ⟨ihf, ihc⟩ := ih mid s' h new' hs'g
+      subst hnew
+      refine ⟨?_, ?_⟩
+      · intro n hn x hx
+        rcases List.mem_cons.mp hn with rfl | hn
+        · exact not_mem_of_findGroup_none hfresh x hx
+        · exact ihf n hn x (by rw [hmidg]; exact List.mem_append_left _ hx)
+      · intro hcl
+        -- the first new row is closed in `mid`, hence `mid` is closed
+        have hrow : ∀ a ∈ (u.startGroup + sp.relId - 1) :: ancestorsOf s b par,
+            ∃ x ∈ mid.groups, x.batch = b ∧ x.id = a := by
+          intro a ha
+          rcases List.mem_cons.mp ha with rfl | ha
+          · exact ⟨_, by rw [hmidg]; exact List.mem_append_right _ (List.mem_singleton.mpr rfl), rfl, rfl⟩
+          · obtain ⟨y, hy, hyb, -, hya⟩ := mem_ancestorsOf ha
+            obtain ⟨x, hx, hxb, hxi⟩ := hcl y hy a hya
+            exact ⟨x, by rw [hmidg]; exact List.mem_append_left _ hx, by rw [hxb, hyb], hxi⟩
+        have hclmid : AncClosed mid := by
+          intro g hg a ha
+          rw [hmidg] at hg
+          rcases List.mem_append.mp hg with hg | hg
+          · obtain ⟨x, hx, hk⟩ := hcl g hg a ha
+            exact ⟨x, by rw [hmidg]; exact List.mem_append_left _ hx, hk⟩
+          · rw [List.mem_singleton.mp hg] at ha ⊢
+            exact hrow a ha
+        intro n hn a ha
+        rcases List.mem_cons.mp hn with rfl | hn
+        · obtain ⟨x, hx, hk⟩ := hrow a ha
+          refine ⟨x, ?_, hk⟩
+          rw [hmidg] at hx
+          rcases List.mem_append.mp hx with hx | hx
+          · exact List.mem_append_left _ hx
+          · exact List.mem_append_right _ (List.mem_cons.mpr (Or.inl (List.mem_singleton.mp hx)))
+        · obtain ⟨x, hx, hk⟩ := ihc hclmid n hn a ha
+          refine ⟨x, ?_, hk⟩
+          rw [hmidg, List.append_assoc] at hx
+          exact hx
+
+
+theorem insertGroups_fold (s : State) (b upd user : Nat) (specs : List GroupSpec) :
+    (insertGroups s b upd user specs).1 = s ∨
+    ∃ u bt, findBatch s b = some bt ∧
+      specs.foldl (groupSpecStep b upd u) (some s) = some (insertGroups s b upd user specs).1 := by
+  unfold insertGroups
+  split
+  · exact Or.inl rfl
+  · split
+    · rename_i u bt _ hbt
+      split_ifs
+      · exact Or.inl rfl
+      · exact Or.inl rfl
+      · exact Or.inl rfl
+      · dsimp only
+        split
+        · rename_i s' hr; exact Or.inr ⟨u, bt, hbt, hr⟩
+        · exact Or.inl rfl
+    · exact Or.inl rfl
+
+theorem newRowsOK_nil (s : State) : NewRowsOK s [] := ⟨by simp, by simp⟩
+
+theorem eq_nil_of_append_self {α : Type} {l new : List α} (e : l = l ++ new) : new = [] := by
+  have := congrArg List.length e
+  simpa using this
+
+theorem findBatch_mem_ids {s : State} {b : Nat} {bt : Batch} (h : findBatch s b = some bt) : b ∈ s.batches.map (·.id) := by
+  unfold findBatch at h
+  have hk := List.find?_some h
+  simp only [decide_eq_true_eq] at hk
+  exact List.mem_map.mpr ⟨bt, List.mem_of_find?_eq_some h, hk⟩
+
+/-- rows appended to `job_groups` by `createBatch` / `insertGroups`: fresh keys, ancestors exist, batch exists -/
+theorem newRows_step (s : State) (op : Op) (hb : BatchFresh s) (new : List Group)
+    (e : (step s op).1.groups = s.groups ++ new)
+    (hop : (∃ u bp t, op = .createBatch u bp t) ∨ (∃ b u usr specs, op = .insertGroups b u usr specs)) :
+    NewRowsOK s new ∧ ∀ n ∈ new, n.batch ∈ (step s op).1.batches.map (·.id) := by
+  rcases hop with ⟨u, bp, t, rfl⟩ | ⟨b, u, usr, specs, rfl⟩
+  · simp only [step] at e ⊢
+    unfold createBatch at e ⊢
+    split at e
+    · have : new = [] := eq_nil_of_append_self e
+      subst this; exact ⟨newRowsOK_nil s, by simp⟩
+    · rename_i hfind
+      have hnew : new = [Group.mk s.nextBatch 0 [0] none .complete 0 0 0 0 0] :=
+        (List.append_cancel_left e).symm
+      subst hnew
+      refine ⟨⟨?_, ?_⟩, ?_⟩
+      · intro n hn x hx hk
+        rw [List.mem_singleton.mp hn] at hk
+        have := hb.1 _ (hb.2 x hx)
+        rw [hk.1] at this
+        exact absurd this (Nat.lt_irrefl _)
+      · intro _ n hn a ha
+        rw [List.mem_singleton.mp hn] at ha ⊢
+        have ha0 : a = 0 := by simpa using ha
+        exact ⟨_, List.mem_append_right _ (List.mem_singleton.mpr rfl), rfl, ha0.symm⟩
+      · intro n hn
+        rw [List.mem_singleton.mp hn]
+        simp
+  · simp only [step] at e ⊢
+    rcases insertGroups_fold s b u usr specs with h | ⟨ur, bt, hbt, hf⟩
+    · rw [h] at e ⊢
+      have : new = [] := eq_nil_of_append_self e
+      subst this; exact ⟨newRowsOK_nil s, by simp⟩
+    · refine ⟨foldGroups_newRowsOK b u ur specs s _ hf new e, ?_⟩
+      obtain ⟨new', e', hn', -, -⟩ := foldGroups_eq b u ur specs s _ hf
+      have hg : (insertGroups s b u usr specs).1.groups = s.groups ++ new' := by rw [e']
+      have hbs : (insertGroups s b u usr specs).1.batches = s.batches := by rw [e']
+      have : new = new' := List.append_cancel_left (e.symm.trans hg)
+      subst this
+      intro n hn
+      rw [hbs, (hn' n hn).1]
+      exact findBatch_mem_ids hbt
+
+
+/-! ### `n_jobs` under the transactions other than `commitUpdate` / `insertJobs` -/
+
+theorem updCommitted_append (s : State) (nu : Update) (hnc : nu.committed = false) (b u : Nat) :
+    updCommitted { s with updates := s.updates ++ [nu] } b u = updCommitted s b u := by
+  unfold updCommitted findUpdate
+  simp only [List.find?_append]
+  cases hf : s.updates.find? (fun x => x.batch = b ∧ x.id = u) with
+  | some x => simp
+  | none =>
+    simp only [Option.none_or]
+    by_cases hp : nu.batch = b ∧ nu.id = u
+    · simp [List.find?_cons, hp, hnc]
+    · simp [List.find?_cons, hp]
+
+theorem updCommitted_step_eq (s : State) (op : Op) (h3 : ∀ b u, op ≠ .commitUpdate b u) (b u : Nat) :
+    updCommitted (step s op).1 b u = updCommitted s b u := by
+  by_cases h1 : ∃ usr bp t, op = .createBatch usr bp t
+  · obtain ⟨usr, bp, t, rfl⟩ := h1
+    have : (createBatch s usr bp t).1.updates = s.updates := by unfold createBatch; split <;> rfl
+    show updCommitted (createBatch s usr bp t).1 b u = _
+    unfold updCommitted findUpdate; rw [this]
+  · by_cases h2 : ∃ b' t nj ng usr, op = .createUpdate b' t nj ng usr
+    · obtain ⟨b', t, nj, ng, usr, rfl⟩ := h2
+      show updCommitted (createUpdate s b' t nj ng usr).1 b u = _
+      rcases createUpdate_cases s b' t nj ng usr with ⟨o, e, _⟩ | ⟨last, e, _⟩
+      · rw [e]
+      · rw [e]
+        have hnc : (nextUpdate last b' t nj ng).committed = false := by cases last <;> rfl
+        exact updCommitted_append s _ hnc b u
+    · have := (still_step s op (fun u bp t e => h1 ⟨u, bp, t, e⟩) (fun b t nj ng u e => h2 ⟨b, t, nj, ng, u, e⟩) h3).updates
+      unfold updCommitted findUpdate; rw [this]
+
+theorem committedCount_step_eq (s : State) (op : Op) (h2 : ∀ b u usr specs, op ≠ .insertJobs b u usr specs)
+    (h3 : ∀ b u, op ≠ .commitUpdate b u) (hg : JobsGroupOK s) (b g : Nat) :
+    committedCount (step s op).1 b g = committedCount s b g := by
+  obtain ⟨F, hF, e⟩ := jobsMapped_step s op h2
+  unfold committedCount
+  rw [e, List.filter_map, List.length_map]
+  congr 2
+  apply List.filter_congr
+  intro j hj
+  obtain ⟨a1, -, a3, a4, -⟩ := hF j
+  simp only [Function.comp, under, a1, a3, a4, updCommitted_step_eq s op h3]
+  by_cases hb : j.batch = b
+  · have := hg j hj
+    rw [hb] at this
+    rw [ancestorsOf_shape' (shape_step s op) this]
+  · simp [hb]
+
+theorem commitUpdate_batchIds (s : State) (b upd : Nat) :
+    (commitUpdate s b upd).1.batches.map (·.id) = s.batches.map (·.id) ∧ (commitUpdate s b upd).1.nextBatch = s.nextBatch := by
+  unfold commitUpdate
+  model_split
+  all_goals first
+    | exact ⟨rfl, rfl⟩
+    | exact ⟨map_id_ite s.batches _ (fun x => { x with state := .running, nJobs := x.nJobs + _ }) (fun _ => rfl), rfl⟩
+
+theorem batchFresh_init : BatchFresh init := ⟨by simp [init], by simp [init]⟩
+
+theorem groups_batch_step (s : State) (op : Op) :
+    ∀ g' ∈ (step s op).1.groups, (∃ g ∈ s.groups, g'.batch = g.batch) ∨
+      ∃ new, (step s op).1.groups = s.groups ++ new ∧ g' ∈ new ∧
+        ((∃ u bp t, op = .createBatch u bp t) ∨ (∃ b u usr specs, op = .insertGroups b u usr specs)) := by
+  intro g' hg'
+  rcases groups_step s op with e | ⟨new, e, -, -, hop⟩ | ⟨b, g, ns, e⟩ | ⟨b, upd, u, -, -, -, -, -, e⟩
+  · rw [e] at hg'; exact Or.inl ⟨g', hg', rfl⟩
+  · rw [e, List.mem_append] at hg'
+    rcases hg' with h | h
+    · exact Or.inl ⟨g', h, rfl⟩
+    · exact Or.inr ⟨new, e, h, hop⟩
+  · rw [e, List.map_map, List.mem_map] at hg'
+    obtain ⟨x, hx, rfl⟩ := hg'
+    exact Or.inl ⟨x, hx, (((groupFrame_tallyRow b _ ns).comp (groupFrame_markRow b _)) x).1⟩
+  · rw [e, List.mem_map] at hg'
+    obtain ⟨x, hx, rfl⟩ := hg'
+    exact Or.inl ⟨x, hx, (groupFrame_commitGroup s b upd x).1⟩
+
+theorem batchFresh_step (s : State) (op : Op) (h : BatchFresh s) : BatchFresh (step s op).1 := by
+  -- batch ids and nextBatch
+  have hids : (∀ i ∈ s.batches.map (·.id), i ∈ (step s op).1.batches.map (·.id)) ∧
+      (∀ i ∈ (step s op).1.batches.map (·.id), i < (step s op).1.nextBatch) := by
+    by_cases h1 : ∃ usr bp t, op = .createBatch usr bp t
+    · obtain ⟨usr, bp, t, rfl⟩ := h1
+      simp only [step]
+      unfold createBatch
+      split
+      · exact ⟨fun i hi => hi, h.1⟩
+      · refine ⟨fun i hi => by simp only [List.map_append, List.mem_append]; exact Or.inl hi, ?_⟩
+        intro i hi
+        simp only [List.map_append, List.mem_append, List.map_cons, List.map_nil, List.mem_singleton] at hi
+        rcases hi with hi | hi
+        · have := h.1 i hi; show i < s.nextBatch + 1; omega
+        · show i < s.nextBatch + 1; omega
+    · have hst : (step s op).1.batches.map (·.id) = s.batches.map (·.id) ∧ (step s op).1.nextBatch = s.nextBatch := by
+        by_cases h2 : ∃ b' t nj ng usr, op = .createUpdate b' t nj ng usr
+        · obtain ⟨b', t, nj, ng, usr, rfl⟩ := h2
+          simp only [step]
+          rcases createUpdate_cases s b' t nj ng usr with ⟨o, e, _⟩ | ⟨last, e, _⟩ <;> rw [e] <;> exact ⟨rfl, rfl⟩
+        · by_cases h3 : ∃ b u, op = .commitUpdate b u
+          · obtain ⟨b, u, rfl⟩ := h3
+            exact commitUpdate_batchIds s b u
+          · have := still_step s op (fun u bp t e => h1 ⟨u, bp, t, e⟩) (fun b t nj ng u e => h2 ⟨b, t, nj, ng, u, e⟩)
+              (fun b u e => h3 ⟨b, u, e⟩)
+            exact ⟨this.batchIds, this.next⟩
+      rw [hst.1, hst.2]
+      exact ⟨fun i hi => hi, h.1⟩
+  refine ⟨hids.2, ?_⟩
+  intro g' hg'
+  rcases groups_batch_step s op g' hg' with ⟨g, hg, hb⟩ | ⟨new, e, hn, hop⟩
+  · rw [hb]; exact hids.1 _ (h.2 g hg)
+  · exact (newRows_step s op h new e hop).2 g' hn
+
+theorem ancClosed_init : AncClosed init := by intro g hg; simp [init] at hg
+
+theorem ancClosed_of_map {s s' : State} {F : Group → Group} (hF : GroupFrame F) (e : s'.groups = s.groups.map F)
+    (h : AncClosed s) : AncClosed s' := by
+  intro g' hg' a ha
+  rw [e, List.mem_map] at hg'
+  obtain ⟨g, hg, rfl⟩ := hg'
+  rw [(hF g).2.2.1] at ha
+  obtain ⟨x, hx, hxb, hxi⟩ := h g hg a ha
+  exact ⟨F x, by rw [e]; exact List.mem_map.mpr ⟨x, hx, rfl⟩, by rw [(hF x).1, (hF g).1, hxb], by rw [(hF x).2.1, hxi]⟩
+
+theorem ancClosed_step (s : State) (op : Op) (h : AncClosed s) (hb : BatchFresh s) : AncClosed (step s op).1 := by
+  rcases groups_step s op with e | ⟨new, e, -, -, hop⟩ | ⟨b, g, ns, e⟩ | ⟨b, upd, u, -, -, -, -, -, e⟩
+  · exact ancClosed_of_map GroupFrame.id (by rw [e, List.map_id]) h
+  · obtain ⟨⟨-, hcl⟩, -⟩ := newRows_step s op hb new e hop
+    intro g' hg' a ha
+    rw [e] at hg' ⊢
+    rcases List.mem_append.mp hg' with hg | hg
+    · obtain ⟨x, hx, hk⟩ := h g' hg a ha
+      exact ⟨x, List.mem_append_left _ hx, hk⟩
+    · exact hcl h g' hg a ha
+  · rw [List.map_map] at e
+    exact ancClosed_of_map ((groupFrame_tallyRow b _ ns).comp (groupFrame_markRow b _)) e h
+  · exact ancClosed_of_map (groupFrame_commitGroup s b upd) e h
+
+/-- a group row with a fresh key has no job under it -/
+theorem committedCount_fresh {s : State} (hg : JobsGroupOK s) (hcl : AncClosed s) (b g : Nat)
+    (hfresh : ∀ x ∈ s.groups, ¬ (x.batch = b ∧ x.id = g)) : committedCount s b g = 0 := by
+  unfold committedCount
+  have : (s.jobs.filter fun j => under s b g j && updCommitted s b j.update) = [] := by
+    rw [List.filter_eq_nil_iff]
+    intro j hj hu
+    simp only [Bool.and_eq_true, under, decide_eq_true_eq, List.contains_iff_mem] at hu
+    obtain ⟨y, hy, hyb, -, hya⟩ := mem_ancestorsOf hu.1.2
+    obtain ⟨x, hx, hxb, hxi⟩ := hcl y hy g hya
+    exact hfresh x hx ⟨by rw [hxb, hyb], hxi⟩
+  rw [this]; rfl
+
+theorem njobsExact_other (s : State) (op : Op) (h2 : ∀ b u usr specs, op ≠ .insertJobs b u usr specs)
+    (h3 : ∀ b u, op ≠ .commitUpdate b u) (h : NJobsExact s) (hg : JobsGroupOK s) (hcl : AncClosed s)
+    (hb : BatchFresh s) : NJobsExact (step s op).1 := by
+  have hcc := committedCount_step_eq s op h2 h3 hg
+  rcases groups_step s op with e | ⟨new, e, hn, -, hop⟩ | ⟨b, g, ns, e⟩ | ⟨b, upd, u, hop, -⟩
+  · intro x hx; rw [e] at hx; rw [hcc]; exact h x hx
+  · intro x hx
+    rw [e, List.mem_append] at hx
+    rw [hcc]
+    rcases hx with hx | hx
+    · exact h x hx
+    · obtain ⟨⟨hfresh, -⟩, -⟩ := newRows_step s op hb new e hop
+      rw [(hn x hx).1, committedCount_fresh hg hcl x.batch x.id (hfresh x hx)]
+  · intro x' hx'
+    rw [e, List.map_map, List.mem_map] at hx'
+    obtain ⟨x, hx, rfl⟩ := hx'
+    obtain ⟨f1, f2, -, -⟩ := ((groupFrame_tallyRow b (ancestorsOf s b g) ns).comp (groupFrame_markRow b (ancestorsOf s b g))) x
+    rw [f1, f2, hcc, ← h x hx]
+    simp only [Function.comp, markRow, tallyRow]
+    split_ifs <;> rfl
+  · exact absurd hop (h3 b upd)
+
+
+/-! ### the whole-history `n_jobs` invariant -/
+
+/-- update `(b, upd)` has no job rows -/
+def NoJobsOf (s : State) (b upd : Nat) : Prop := ∀ j ∈ s.jobs, ¬ (j.batch = b ∧ j.update = upd)
+
+instance (s : State) (b upd : Nat) : Decidable (NoJobsOf s b upd) := by unfold NoJobsOf; infer_instance
+
+/-- a commit of an update declared with ZERO jobs finds no job rows of that update (the procedure skips its group
+bookkeeping when `expected_n_jobs = 0`; job ids outside the reserved range — C08 — are the only way to violate this) -/
+def CommitOK (s : State) : Op → Prop
+  | .commitUpdate b upd => ∀ u ∈ findUpdate s b upd, u.nJobs = 0 → NoJobsOf s b upd
+  | _ => True
+
+instance (s : State) (op : Op) : Decidable (CommitOK s op) := by cases op <;> unfold CommitOK <;> infer_instance
+
+def HistCommitOK : State → List Op → Prop
+  | _, [] => True
+  | s, op :: rest => CommitOK s op ∧ HistCommitOK (step s op).1 rest
+
+instance : ∀ (s : State) (ops : List Op), Decidable (HistCommitOK s ops)
+  | _, [] => isTrue trivial
+  | s, op :: rest => by
+    unfold HistCommitOK
+    have := instDecidableHistCommitOK (step s op).1 rest
+    infer_instance
+
+theorem stagedCount_of_noJobs {s : State} {b upd : Nat} (h : NoJobsOf s b upd) (g : Nat) : stagedCount s b upd g = 0 := by
+  unfold stagedCount
+  have : (s.jobs.filter fun j => under s b g j && decide (j.update = upd)) = [] := by
+    rw [List.filter_eq_nil_iff]
+    intro j hj hu
+    simp only [Bool.and_eq_true, under, decide_eq_true_eq] at hu
+    exact h j hj ⟨hu.1.1, hu.2⟩
+  rw [this]; rfl
+
+structure CountInv (s : State) : Prop where
+  staging : StagingInv s
+  njobs : NJobsExact s
+  closed : AncClosed s
+  fresh : BatchFresh s
+
+theorem countInv_init : CountInv init :=
+  ⟨stagingInv_init, by intro g hg; simp [init] at hg, ancClosed_init, batchFresh_init⟩
+
+theorem countInv_step (s : State) (op : Op) (hok : CommitOK s op) (h : CountInv s) : CountInv (step s op).1 := by
+  refine ⟨stagingInv_step s op h.staging, ?_, ancClosed_step s op h.closed h.fresh, batchFresh_step s op h.fresh⟩
+  by_cases c2 : ∃ b u usr specs, op = .insertJobs b u usr specs
+  · obtain ⟨b, u, usr, specs, rfl⟩ := c2
+    exact njobsExact_insertJobs s b u usr specs h.njobs
+  · by_cases c3 : ∃ b u, op = .commitUpdate b u
+    · obtain ⟨b, upd, rfl⟩ := c3
+      refine njobsExact_commit s b upd h.njobs h.staging.1 h.staging.2.1 ?_
+      intro u hu hz g
+      exact stagedCount_of_noJobs (hok u (Option.mem_def.mpr hu) hz) g
+    · exact njobsExact_other s op (fun b u usr specs e => c2 ⟨b, u, usr, specs, e⟩) (fun b u e => c3 ⟨b, u, e⟩)
+        h.njobs h.staging.2.1 h.closed h.fresh
+
+theorem countInv_run (ops : List Op) : ∀ (s : State), HistCommitOK s ops → CountInv s →
+    CountInv (ops.foldl (fun s op => (step s op).1) s) := by
+  induction ops with
+  | nil => intro s _ h; exact h
+  | cons op rest ih => intro s hw h; exact ih _ hw.2 (countInv_step s op hw.1 h)
+
 
 end HailVerif.BatchDB.Submission
